@@ -77,12 +77,15 @@ def random_seeds(rng, n):
             vs = []
             for _ in range(nv):
                 ln = rng.choice([1, 1, 2, 3, 5, 9])
-                vs.append(enc("".join(rng.choice(alphabet) for _ in range(ln))))
+                if rng.random() < 0.12:       # a value that itself looks like key=value
+                    vs.append(enc(rng.choice(["locus=12", "k=v", "ID=x", "a=b c", "x=", "n=1=2"])))
+                else:
+                    vs.append(enc("".join(rng.choice(alphabet) for _ in range(ln))))
             a.append([enc(k), vs])
         style = rng.choice([("=", False, "gff3"), (" ", True, "gtf"), (" ", False, "gff3"), ("=", True, "gff3")])
         d = {"lead": False, "trail": rng.random() < 0.5, "quoted": style[1], "fsep": enc(rng.choice([";", "; ", " ; "])),
              "kvsep": enc(style[0]), "mvsep": enc(","), "fmt": style[2], "rep": rng.random() < 0.4, "order": [k for k, _ in a]}
-        seeds.append({"n": rng.randrange(12), "a": a, "d": d})
+        seeds.append({"n": rng.randrange(18), "a": a, "d": d})
     return seeds
 
 
